@@ -364,6 +364,12 @@ func CheckPath(pkgDir, abs string, dirOK map[string]bool) (info fs.FileInfo, rel
 		if _, err := os.Stat(filepath.Join(dir, "go.mod")); err == nil {
 			return nil, "", fmt.Errorf("cannot embed %s %s: in different module", what, rel)
 		}
+		if dir != abs {
+			if fi, err := os.Lstat(dir); err == nil && !fi.IsDir() {
+				r, _ := RelPath(pkgDir, dir)
+				return nil, "", fmt.Errorf("cannot embed %s %s: in non-directory %s", what, rel, r)
+			}
+		}
 		elem := filepath.Base(dir)
 		if IsBadName(elem) {
 			if dir == abs {
